@@ -54,6 +54,16 @@ var nonIdemStmts = []string{
 	"INSERT INTO ks.tbl (k, v) VALUES ('%s', uuid())",
 	"UPDATE ks.tbl SET v = 1 WHERE k = '%s' IF EXISTS",
 	"BEGIN BATCH INSERT INTO ks.tbl (k, v) VALUES ('%s', 1); INSERT INTO ks.tbl (k, v) VALUES ('y', now()) APPLY BATCH",
+	// other spellings of the same things (function names are case-insensitive, may be qualified, may sit inside
+	// collections, tuples and nested calls; keywords in any case)
+	"INSERT INTO ks.tbl (k, v) VALUES ('%s', NOW())",
+	"INSERT INTO ks.tbl (k, v) VALUES ('%s', Uuid())",
+	"INSERT INTO ks.tbl (k, v) VALUES ('%s', system.UUID())",
+	"INSERT INTO ks.tbl (k, s) VALUES ('%s', {system.now()})",
+	"INSERT INTO ks.tbl (k, t) VALUES ('%s', (1, now()))",
+	"INSERT INTO ks.tbl (k, v) VALUES ('%s', toTimestamp(Now()))",
+	"update ks.tbl set C = C + 1 where k = '%s'",
+	"BEGIN BATCH INSERT INTO ks.tbl (k, v) VALUES ('y', UUID()); INSERT INTO ks.tbl (k, v) VALUES ('%s', 1) APPLY BATCH",
 }
 
 const prepIdem = "INSERT INTO ks.tbl (k, v) VALUES (?, 1)"
